@@ -156,6 +156,51 @@ let oscseq toks =
       Buffer.contents b
   | _ -> failwith "oscseq args"
 
+(* oscmulti <secret> <salt> <idctx> <cid> <sid> <cseq> <sseq> <token>  (peer A)
+            <secret> <salt> <idctx> <cid> <sid> <cseq> <sseq> <token>  (peer B)  <step>*
+   TWO security contexts at one server, both peers on the SAME server session, requests
+   interleaved and responses delayed / out of order.  Steps: Q<p><o> (request of peer p = A|B,
+   o = - | 0 | 1 Observe), R<p><o><v> (response to peer p's token; o = 1 Observe, v = 1 forced
+   Partial IV).  Each response is protected with the context of ITS request. *)
+let oscmulti toks =
+  let peer l = match l with
+    | secret :: salt :: idctx :: cid :: sid :: cseq :: sseq :: tok :: rest ->
+        ((ctx_of secret salt idctx cid sid, ctx_of secret salt idctx sid cid,
+          ref (int_of_string cseq), ref (int_of_string sseq), ref [], bytes_of_tok tok), rest)
+    | _ -> failwith "oscmulti peer" in
+  let pa, rest = peer toks in
+  let pb, steps = peer rest in
+  let b = Buffer.create 256 and k = ref 0 in
+  let zb n = zbyte.(n land 255) in
+  List.iter (fun st ->
+    incr k;
+    let (cc, sc, cs, ss, rpiv, token) = if st.[1] = 'A' then pa else pb in
+    if st.[0] = 'Q' then begin
+      let obs = match st.[2] with '0' -> [(z_of_int 6, [])] | '1' -> [(z_of_int 6, [zb 1])] | _ -> [] in
+      let m = { m_type = z_of_int 1; m_code = z_of_int 1; m_mid = z_of_int (100 + !k); m_token = token;
+                m_opts = obs @ [(z_of_int 11, [zb 115])]; m_payload = [] } in
+      (match osc_protect_req cc m (z_of_int !cs) with
+       | None -> Buffer.add_string b " q=NONE"
+       | Some o ->
+           let dg = serialize UDP o in
+           rpiv := osc_piv_bytes (z_of_int !cs);
+           cs := !cs + 1;
+           Buffer.add_string b (" q=" ^ fullhex dg ^ " dq=" ^ receive sc None dg))
+    end else begin
+      let obs = st.[2] = '1' and sp = st.[3] = '1' in
+      let m = { m_type = z_of_int 1; m_code = z_of_int 69; m_mid = z_of_int (200 + !k); m_token = token;
+                m_opts = (if obs then [(z_of_int 6, [zb !k])] else []);
+                m_payload = [zb 114; zb (48 + !k mod 10)] } in
+      (match osc_protect_resp sc m !rpiv sp (z_of_int !ss) with
+       | None -> Buffer.add_string b " r=NONE"
+       | Some o ->
+           let dg = serialize UDP o in
+           if obs || sp then ss := !ss + 1;
+           Buffer.add_string b (" r=" ^ fullhex dg ^ " dr=" ^ receive cc (Some (token, !rpiv)) dg))
+    end) steps;
+  Buffer.contents b
+
 let () =
+  register "oscmulti" oscmulti;
   register "oscseq" oscseq;
   register "oscderive" oscderive; register "oscx" oscx; register "oscun" oscun
